@@ -1778,6 +1778,8 @@ def gen_misc(r, n):
             p1 = [V.dyadic(r, -40, 40) for _ in range(3)]; p2 = [V.dyadic(r, -40, 40) for _ in range(3)]
             if r.random() < 0.3 and not generic:   # exactly half a cell apart in one direction
                 j = r.randrange(3); p2[j] = p1[j] + cell[j] / 2 + r.randint(-2, 2) * cell[j]
+            elif r.random() < 0.25 and not generic:  # very far apart: 2^20 .. 2^40 cell lengths (still exact in binary64)
+                j = r.randrange(3); p2[j] = p2[j] + r.choice([1, -1]) * 2.0 ** r.choice([20, 30, 31, 32, 35, 40]) * cell[j]
             n1 = [r.randint(-3, 3) for _ in range(3)]
             p2s = [x + a * L for x, a, L in zip(p2, n1, cell)]
             f = lambda a, b: "PD %d %s %s %s" % (hc, " ".join(G.hx(x) for x in cell), " ".join(G.hx(x) for x in a), " ".join(G.hx(x) for x in b))
